@@ -278,7 +278,13 @@ def _gen_case(rng, cls=None, nops=None):
         elif r < 0.78:
             ops.append(["collect"])
         elif r < 0.88 and layer is not None:
-            ops.append(_gen_layer_op(rng))
+            prev = [o for o in ops if o[0] == "layer"]
+            if prev and rng.random() < 0.5:
+                # a layer write that can change the range, then a redraw with the SAME settings (same portrayal dict)
+                ops.append(["setlayer", rng.randrange(sp["w"]), rng.randrange(sp["h"]), rng.choice([0, 8, 9, 12, -2, rng.randint(0, 8)])])
+                ops.append(list(rng.choice(prev)))
+            else:
+                ops.append(_gen_layer_op(rng))
         elif r < 0.94:
             ops.append(_gen_check(rng))
         elif r < 0.97:
@@ -640,7 +646,7 @@ def _shown_degenerate(fam, color_mode, lo, v):
         return 0 if color_mode else lo
     if not color_mode:
         return v
-    return -7 if v == lo else (4 if v > lo else 0)
+    return 0      # as repaired (fixes/C20-11): a degenerate scale maps every cell to 0, like Normalize
 
 
 def _make_sig_class(sig):
@@ -666,17 +672,32 @@ def _make_sig_class(sig):
     return ns["M"], src
 
 
+_MESSAGES = []
+
+
+def _check_messages():
+    """(literal beginning of the message, error code) of every ValueError of _check_model_params, re-read from the
+    source under test by the T1 translator (codes come from WHERE the raise stands): rewording a message changes nothing"""
+    if not _MESSAGES:
+        import importlib.util
+        import os
+
+        path = os.path.join(os.path.dirname(os.path.dirname(os.path.abspath(__file__))), "tables", "viz_code.py")
+        spec = importlib.util.spec_from_file_location("tables_viz_code_for_c20", path)
+        m = importlib.util.module_from_spec(spec)
+        spec.loader.exec_module(m)
+        _MESSAGES.extend(m.check_messages() or [("requires the use of keyword arguments", E_VARARGS), ("Missing required model parameter", E_MISSING),
+                                                 ("Invalid model parameter", E_INVALID), ("Positional-only model parameter", E_POSONLY)])
+    return _MESSAGES
+
+
 def _check_kind(e):
     s = str(e)
-    if "requires the use of keyword arguments" in s:
-        return E_VARARGS
-    if "Missing required model parameter" in s:
-        return E_MISSING
-    if "Invalid model parameter" in s:
-        return E_INVALID
-    if "ositional-only" in s:
-        return E_POSONLY
-    return 99
+    best = None
+    for prefix, code in _check_messages():
+        if prefix and s.startswith(prefix) and (best is None or len(prefix) > len(best[0])):
+            best = (prefix, code)
+    return best[1] if best else 99
 
 
 def run_impl(case):
@@ -720,6 +741,8 @@ def run_impl(case):
             for y in range(sp["h"]):
                 layer.data[x, y] = ldata[x][y]
 
+    layer_portrayals = {}     # settings -> the one propertylayer_portrayal dict a user would define once and reuse
+    json_key = lambda v: repr(v)  # noqa: E731
     agents = {}      # id -> agent object (in the space)
     shadow = {}      # id -> (kind, x, y)   address as in the history
 
@@ -1081,17 +1104,25 @@ def run_impl(case):
                 if hi < lo:
                     obs.append([-2])
                     continue
-                lp = {"colorbar": cbar, "alpha": a4 / 4}
-                if cm:
-                    lp["color"] = "red"
-                else:
-                    lp["colormap"] = "viridis"
-                if vmin is not None:
-                    lp["vmin"] = vmin
-                if vmax is not None:
-                    lp["vmax"] = vmax
+                def fresh_lp():
+                    d = {"colorbar": cbar, "alpha": a4 / 4}
+                    if cm:
+                        d["color"] = "red"
+                    else:
+                        d["colormap"] = "viridis"
+                    if vmin is not None:
+                        d["vmin"] = vmin
+                    if vmax is not None:
+                        d["vmax"] = vmax
+                    return d
+
+                # the SAME portrayal dict objects are handed over on every redraw with these settings, as SolaraViz does
+                lkey = json_key([cm, vmin, vmax, a4, cbar])
+                if lkey not in layer_portrayals:
+                    layer_portrayals[lkey] = {"L": fresh_lp()}
+                lpd = layer_portrayals[lkey]
                 try:
-                    ax = draw({"L": lp})
+                    ax = draw(lpd)
                 except IndexError as e:
                     if not shadow:
                         obs.append([-1, 99])
@@ -1100,7 +1131,14 @@ def run_impl(case):
                         continue
                     raise
                 mutated(i, "collect")
+                if lpd != {"L": fresh_lp()}:
+                    fail("C20/layer/portrayal-dict-mutated", i,
+                         f"draw_space(..., propertylayer_portrayal=p) on {cls}: p was {{'L': {fresh_lp()}}} and is now {lpd} "
+                         "(the caller's dict was modified; the next redraw with the same dict is not drawn from the layer's current values / range)")
+                    layer_portrayals.pop(lkey)
                 view, how = _read_layer(ax, sp, cm, lo, hi, a4)
+                if fam != "Hex" and not cm and hi != lo and ax.images:
+                    view = view + [_near_int(v, "imshow colour limit") for v in ax.images[-1].get_clim()]
                 # the colour bar: a second axes whose scale is Normalize(vmin, vmax) (half units; Matplotlib widens a singular scale)
                 cb = [0]
                 if cbar:
@@ -1112,10 +1150,14 @@ def run_impl(case):
                          f"colour bar axes / limits (x2) {cb}")
                 exp = [(_shown_degenerate(fam, cm, lo, ldata[x][y]) if hi == lo else _shown(fam, cm, lo, hi, a4, ldata[x][y]))
                        for y in range(sp["h"]) for x in range(sp["w"])]
-                if hi == lo and cm and fam != "Hex" and any(v == -7 for v in view) and view == exp:
-                    failures.append({"key": "candidate:C20/layer/Orth/constant-layer-color-mode-is-nan", "op": i,
-                                     "what": "color mode with vmin == vmax: the alpha channel handed to imshow is NaN where data == vmin"})
-                if view != exp:
+                if fam != "Hex" and not cm and hi != lo:
+                    exp = exp + [lo, hi]         # the colour scale handed to imshow is the current (default or given) one
+                if hi == lo and cm and fam != "Hex" and how == "image" and view != exp:
+                    fail("C20/layer/Orth/constant-layer-color-mode-nan", i,
+                         f"draw_property_layers on {cls} {sp['w']}x{sp['h']}, color mode, vmin={vmin}, vmax={vmax}, layer.data[x][y] = {ldata} "
+                         f"(scale [{lo}, {hi}] is degenerate): the alpha channel handed to imshow (x4; NaN = -7) is {view}, i.e. 0/0 and x/0; "
+                         "a degenerate scale - every constant layer under the default vmin / vmax - divides by zero")
+                elif view != exp:
                     key = f"C20/layer/{fam}/wrong-cell-values"
                     if fam == "Hex" and how == "image":
                         key = "C20/layer/Hex/drawn-as-rectangular-image"
